@@ -16,6 +16,7 @@ ways that `save` cannot observe:
 `save_congr` puts A and B together: if `save Y os` succeeds, `save X os` succeeds with the same stream.
 -/
 import ElfioVerif.Lemmas.RoundTrip
+import ElfioVerif.Lemmas.LayoutNested2
 import ElfioVerif.Props.C06Runs
 set_option linter.unusedSimpArgs false
 namespace ElfioVerif.RoundTrip
@@ -852,5 +853,99 @@ theorem sorted_ext (l1 l2 : List Nat) (h1 : l1.Pairwise (· < ·)) (h2 : l2.Pair
         rcases List.mem_cons.1 ((h x).2 (List.mem_cons_of_mem _ hx)) with e | e
         · have := h2.1 x hx; omega
         · exact e
+
+/-! ### `SavedSane.segInside` for nested segments -/
+
+theorem nodup_idx {segs : List Seg} (h : SegIdxOk segs) : (segs.map (·.index)).Nodup := by
+  rw [List.nodup_iff_pairwise_ne, List.pairwise_map, List.pairwise_iff_getElem]
+  intro i j hi hj hij
+  rw [h i _ (List.getElem?_eq_getElem hi), h j _ (List.getElem?_eq_getElem hj)]
+  omega
+
+/-- **nested segments** : a selected nested segment of the saved object (`layoutNestedB`: it starts at
+    its already generated first member, all members generated, listed in file order; writer-domain side
+    conditions) has its file range `[p_offset, p_offset + p_filesz)` below the section header table: the
+    range ends exactly at the end of one of its file-occupying members (`final_nested_file`), and every
+    non-empty file-occupying section ends below the table (`C04.layout_disjoint`); an empty one cannot be
+    a member (`SaveInput.emptyLoose`). -/
+theorem segInside_nested {o : Obj} {os : OStream} {r : SaveRes} {hdr : Bytes}
+    (hs : save o os = .ok r) (hok : r.ok = true) (hh : o.hdr = some hdr) (hin : SaveInput o hdr)
+    (hnw : layoutNW (preSave o) hdr = true)
+    (selN : Nat → Bool) (hnest : layoutNestedB selN (preSave o) hdr = true)
+    (g : Seg) (hg : g ∈ r.obj.segs) (hsel : selN g.index = true)
+    (hfs : g.filesz.toNat ≠ 0) : g.offset.toNat + g.filesz.toNat ≤ r.obj.curPos.toNat := by
+  have hsegIdx := idx_of_B Seg.index o.segs hin.segIdx
+  have hsecIdx := idx_of_B SecBuf.index o.secs hin.secIdx
+  have hnd := nodup_idx hsegIdx
+  obtain ⟨fsec, fseg, -, -, -⟩ := C05.save_writes_fields hs hok hsegIdx
+  obtain ⟨res, hl, hsegs, -, he⟩ := C04.save_secs_hdr o os r hdr hs hok hh
+  have hg' := hg
+  rw [hsegs] at hg'
+  have hn' : (preSave o).secs.length < 65536 := by rw [preSave_length]; exact hin.nsecs
+  have h0' := preSave_h0 o hin.h0
+  rcases final_nested_file (preSave o) hdr res hl hnw hn' h0' hnd selN hnest g hg' hsel with
+    k | ⟨idx, hidx, s', hs', n1, n2, e⟩
+  · exact absurd k hfs
+  · -- the same position in the saved object
+    obtain ⟨s, hs1, hhs⟩ : ∃ s, r.obj.secs[idx.toNat]? = some s ∧ hdrOf s = hdrOf s' := by
+      have h1 : (r.obj.secs.map hdrOf)[idx.toNat]? = some (hdrOf s') := by
+        rw [he, List.getElem?_map, hs']; rfl
+      rw [List.getElem?_map] at h1
+      cases hq : r.obj.secs[idx.toNat]? with
+      | none => rw [hq] at h1; exact nomatch h1
+      | some t0 => rw [hq] at h1; exact ⟨t0, rfl, by simpa using h1⟩
+    simp only [hdrOf, Prod.mk.injEq] at hhs
+    obtain ⟨e1, e2, e3, -⟩ := hhs
+    have hend : s.endN = s'.endN := by unfold SecBuf.endN; rw [e1, e2]
+    by_cases hz : s.size = 0
+    · -- an empty section of file-occupying type lies outside all segments
+      exfalso
+      have hio : idx.toNat < o.secs.length := by rw [← fsec.1]; exact getElem?_lt hs1
+      have ha := List.getElem?_eq_getElem hio
+      obtain ⟨-, -, est, -, esz, -⟩ := (fsec.2 _ _ _ ha hs1).fields
+      have hocc : C02.occupiesFile (o.secs[idx.toNat]).stype.toNat = true := by
+        rw [← est, e3]
+        unfold C02.occupiesFile
+        simp only [Bool.and_eq_true, bne_iff_ne, ne_eq]
+        constructor
+        · intro e'; apply n1; apply BitVec.eq_of_toNat_eq; rw [e']; rfl
+        · intro e'; apply n2; apply BitVec.eq_of_toNat_eq; rw [e']; rfl
+      have hloose := hin.emptyLoose _ (List.getElem_mem hio) hocc (by rw [← esz]; exact hz)
+      rw [hsecIdx _ _ ha] at hloose
+      -- but it is a member of a segment of the input
+      obtain ⟨j, hj⟩ := List.getElem?_of_mem hg
+      have hjlt : j < o.segs.length := by rw [← fseg.1]; exact getElem?_lt hj
+      have sg := C05.SegSaved.fields (fseg.2 j _ g (List.getElem?_eq_getElem hjlt) hj)
+      have := withoutSegment_false_of_mem o.segs o.segs[j] (List.getElem_mem hjlt) idx (by rw [← sg.2.2.2.2.1]; exact hidx)
+      rw [this] at hloose; cases hloose
+    · have ho : s.Occ := ⟨by rw [e3]; exact n2, by rw [e3]; exact n1, hz⟩
+      obtain ⟨hinr, -, -, -⟩ := C04.layout_disjoint o os r hdr hs hok hh hin.nsecs hin.h0 hnw
+      have := (hinr idx.toNat s hs1 ho).2
+      rw [e, ← hend]
+      exact this
+
+/-- flat and nested segments: every segment is selected as flat (`selE`, not the member-less PT_PHDR
+    case) or as nested (`selN`) -/
+theorem savedSane_mixed {o : Obj} {os : OStream} {r : SaveRes} {hd : Bytes}
+    (hs : save o os = .ok r) (hok : r.ok = true) (hh : o.hdr = some hd) (hin : SaveInput o hd)
+    (hnw : layoutNW (preSave o) hd = true) (selE selN : Nat → Bool)
+    (hdom : layoutDomB false false selE (preSave o) hd = true)
+    (hnest : layoutNestedB selN (preSave o) hd = true)
+    (hcover : ∀ g ∈ o.segs, (selE g.index = true ∧ lseg_is_phdr g.stype (BitVec.ofNat 16 g.secs.length) = false) ∨
+      selN g.index = true)
+    (hnwrap : SavedNoWrap o.cls r.obj.secs r.obj.segs) :
+    SavedSane o.cls r.obj.secs r.obj.segs r.obj.curPos.toNat := by
+  have hsegIdx := idx_of_B Seg.index o.segs hin.segIdx
+  obtain ⟨_, fseg, _⟩ := C05.save_writes_fields hs hok hsegIdx
+  have hnd := nodup_idx hsegIdx
+  refine ⟨hnwrap.secNoWrap, hnwrap.segFit, hnwrap.segNoWrap, ?_⟩
+  intro g hg _ hfs
+  obtain ⟨k, hk⟩ := List.getElem?_of_mem hg
+  have hklt : k < o.segs.length := by rw [← fseg.1]; exact getElem?_lt hk
+  have sg := C05.SegSaved.fields (fseg.2 k _ g (List.getElem?_eq_getElem hklt) hk)
+  rcases hcover _ (List.getElem_mem hklt) with ⟨h1, h2⟩ | h1
+  · exact segInside_flat hs hok hh hin.nsecs hin.h0 hnw hnd selE hdom g hg (by rw [sg.2.2.2.2.2.1]; exact h1)
+      (by rw [sg.1, sg.2.2.2.2.1]; exact h2) hfs
+  · exact segInside_nested hs hok hh hin hnw selN hnest g hg (by rw [sg.2.2.2.2.2.1]; exact h1) hfs
 
 end ElfioVerif.RoundTrip
